@@ -77,6 +77,22 @@ theorem week_before_epoch_panics (now : Nat) (h : now < GPS_TO_UNIX_OFFSET) :
   simp (disch := omega) only [gps_week_in_s, LEAP_SECONDS_SINCE_2017, GPS_TO_UNIX_OFFSET,
     Outcome.bind_ok, mulU_ok, Nat.reduceMul, subU_panic, Outcome.bind_panic]
 
+/-- **The regenerated constants are the documented ones** (audit e, F7): the GPS epoch 1980-01-06T00:00:00Z is
+    Unix second 315 964 800 and GPS is 18 leap seconds ahead of UTC since 2017.  `week_ok` is stated with the
+    names regenerated from `time.rs` and its proof would go through for other values; this theorem is what
+    fails when a constant in the source is edited (`week_boundary_literal` restates the clause with the
+    literals). -/
+theorem source_constants_literal : GPS_TO_UNIX_OFFSET = 315964800 ∧ LEAP_SECONDS_SINCE_2017 = 18 :=
+  ⟨rfl, rfl⟩
+
+/-- the second clause with literal constants: the returned `w`, moved to GPS time (`w − 315 964 800 + 18`),
+    is a multiple of 604 800 s, `w ≤ now < w + 604 800`. -/
+theorem week_boundary_literal (now : Nat) (h0 : 315964800 ≤ now) (h1 : now < 2 ^ 64) :
+    ∃ w, gps_week_in_s now = .ok w ∧ w ≤ now ∧ now - w < 604800 ∧ (w + 18 - 315964800) % 604800 = 0 := by
+  have h := week_ok_u64 now (by rw [source_constants_literal.1]; exact h0) h1
+  rw [source_constants_literal.1, source_constants_literal.2] at h
+  exact h
+
 /-- Non-vacuity: the hypotheses are met by ordinary values, and the statement is
     sharp at the first second of the week (the input on which the unrepaired code
     panicked). -/
